@@ -606,15 +606,20 @@ func ReadPacket(reader enc.ParseReader) (*Packet, *PacketParsingContext, error) 
 	if err != nil {
 		return nil, nil, err
 	}
+	// An Interest is checked whenever one is present: a buffer that (against the precondition) also holds
+	// a Data must not yield an Interest whose parameters digest was never verified.
+	if ret.Interest != nil {
+		err = checkInterest(ret.Interest, &context.Interest_context)
+		if err != nil {
+			return nil, nil, err
+		}
+	}
 	if ret.Data != nil {
 		if ret.Data.NameV == nil {
 			return nil, nil, ndn.ErrInvalidValue{Item: "Data.Name", Value: nil}
 		}
 	} else if ret.Interest != nil {
-		err = checkInterest(ret.Interest, &context.Interest_context)
-		if err != nil {
-			return nil, nil, err
-		}
+		// checked above
 	} else if ret.LpPacket != nil {
 		// As a client we shouldn't receive IDLE packets
 		if ret.LpPacket.Fragment == nil {
